@@ -13,7 +13,7 @@ from ..paths import Frame
 from .common import (bound_args, call_name, calls_to, enclosing_loops,
                      iteration_segments, short)
 
-FLOORS = {'C14.G1': 4, 'C14.G2': 6, 'C14.G3': 2, 'C14.G4': 1}
+FLOORS = {'C14.G1': 4, 'C14.G2': 6, 'C14.G3': 2, 'C14.G4': 1, 'C14.G5': 5}
 
 PRED_ROLE = {'predecessors', 'pred', 'in_edges'}
 SUCC_ROLE = {'successors', 'succ', 'neighbors', 'adj', 'out_edges'}
@@ -136,6 +136,16 @@ def check(repo, res, tier):
                             'the workflow graph is built as %s and no statement adds the nodes of the file as nodes '
                             '(set_node_attributes only touches nodes that exist): a node without edges is dropped and gets no '
                             'task' % short(P, 120))
+    # ---- G5: the Task keeps what the plan gave it ---------------------------------
+    from . import initial
+    res.rule('C14.G5', 'Task.__init__ stores each planned value (id, demands, predecessors, edge volumes, graph node, window, '
+                       'machine) exactly as it is given')
+    initial.check_fields_from_params(
+        repo, res, 'C14.G5', 'Task',
+        {'id': 'tid', 'flops': 'flops', 'task_data': 'task_data', 'io': 'io', 'pred': 'predecessors', 'graph_id': 'gid',
+         'est': 'est', 'eft': 'eft', 'allocated_machine_id': 'machine_id'},
+        'the task no longer carries what the workflow graph says for its node (a truncated or swapped value changes its '
+        'runtime, its transfer waits or its identity)')
     # ---- G3 --------------------------------------------------------------
     for q, role, other in (('WorkflowPlan.get_task_predecessors', PRED_ROLE, SUCC_ROLE),
                            ('WorkflowPlan.get_task_successors', SUCC_ROLE, PRED_ROLE)):
